@@ -479,11 +479,31 @@ HELPERS = ["translate", "decode", "on_error_handler", "get", "getname",
            "encoded", "quote", "g_re_amp", "Symbol"]
 
 
+BYSTANDERS = {
+    # name -> (source, expected output)
+    "none": ("", ""),
+    "i18n_attr": ('<u title="T" i18n:attributes="title">t</u>',
+                  '<u title="T">t</u>'),
+    "i18n_attr_dyn": ('<u tal:attributes="title string:D" '
+                      'i18n:attributes="title">t</u>', '<u title="D">t</u>'),
+    "i18n_translate": ('<u i18n:translate="">Hello <em i18n:name="w">W</em>'
+                       '</u>', '<u>Hello <em>W</em></u>'),
+    "bytes": ("<u>${bys_bytes}</u>", "<u>caf\u00e9 &lt;</u>"),
+    "onerror": ('<u tal:on-error="string:E">${1/0}</u>', "<u>E</u>"),
+    "loop": ('<tal:z repeat="zz (1, 2)">${zz},</tal:z>', "1,2,"),
+    "switch": ('<u tal:switch="1"><s tal:case="1">one</s></u>',
+               "<u><s>one</s></u>"),
+    "escape": ("<u title=\"${'<&>'}\">${'&>'}</u>",
+               '<u title="&lt;&amp;&gt;">&amp;&gt;</u>'),
+    "macro": ('<u metal:define-macro="mm">M</u>', "<u>M</u>"),
+}
+
+
 class Helpers(Part):
     """A name of the engine's own helpers (or of a value the engine binds)
     that a template defines holds, where it is read, what was defined."""
     name = "helpers"
-    examples = {"quick": 200, "thorough": 2000}
+    examples = {"quick": 600, "thorough": 8000}
 
     def strategy(self, tier):
         return st.fixed_dictionaries({
@@ -493,6 +513,9 @@ class Helpers(Part):
                                     "lambda_param"]),
             "read": st.sampled_from(["interp", "content", "attribute",
                                      "condition"]),
+            # another construct in the same scope that needs the engine's
+            # own machinery: it must work as if the name were not bound
+            "bystander": st.sampled_from(sorted(BYSTANDERS)),
         })
 
     def source(self, case):
@@ -505,6 +528,7 @@ class Helpers(Part):
             r = '<b tal:attributes="title %s"/>' % n
         else:
             r = '<b tal:condition="%s == \'v\'">yes</b>' % n
+        r += BYSTANDERS[case.get("bystander", "none")][0]
         if case["via"] == "define":
             return '<i tal:define="%s \'v\'">%s</i>' % (n, r)
         if case["via"] == "global":
@@ -524,6 +548,7 @@ class Helpers(Part):
         r = {"interp": "<b>v</b>", "content": "<b>v</b>",
              "attribute": '<b title="v"/>', "condition": "<b>yes</b>"}[
                  case["read"]]
+        r += BYSTANDERS[case.get("bystander", "none")][1]
         if case["via"] == "global":
             return "<i/><i>%s</i>" % r
         return "<i>%s</i>" % r
@@ -544,7 +569,39 @@ class Helpers(Part):
                             dict(detail, outcome=o.brief()))
         env = {case["name"]: "v"} if case["via"] in (
             "argument", "codeblock_param", "lambda_param") else {}
+        env["bys_bytes"] = "caf\u00e9 <".encode("utf-8")
+        if case["name"] == "target_language" and \
+                case.get("bystander", "").startswith("i18n"):
+            # (documented: this variable IS the translation target)
+            return None
+        if case["name"] == "translate" and case["name"] in env:
+            # (documented: the 'translate' argument of render() IS the
+            # translation function)
+            return None
         o = run(o.value.render, **env)
+        if o.ok and case.get("bystander", "none") != "none":
+            # which half is wrong?  the reader alone is K13 territory
+            rd = self.expected(dict(case, bystander="none"))
+            by = BYSTANDERS[case["bystander"]][1]
+            if o.value != self.expected(case) and rd[:-4] in o.value and \
+                    by not in o.value:
+                return Mismatch("helpers:another construct in the scope is "
+                                "affected (%s)" % case["bystander"],
+                                dict(detail, got=o.value,
+                                     expected=self.expected(case)))
+        elif not o.ok and case.get("bystander", "none") != "none":
+            o2 = run(PageTemplate, self.source(dict(case, bystander="none")))
+            o2 = run(o2.value.render, **env) if o2.ok else o2
+            if o2.ok:
+                if case["name"] == "repeat" and \
+                        case["bystander"] == "loop" and \
+                        o.exc_name == "TypeError" and \
+                        "not callable" in str(o.exc):
+                    return Mismatch("helpers:K15", dict(
+                        detail, outcome=o.brief()))
+                return Mismatch("helpers:another construct in the scope "
+                                "fails (%s)" % case["bystander"],
+                                dict(detail, outcome=o.brief()))
         bucket = None
         if not o.ok:
             bucket = "helpers:render raises " + o.exc_name
@@ -559,7 +616,8 @@ class Helpers(Part):
         return Mismatch(bucket, detail)
 
     def known(self, case, mismatch):
-        return "K13" if mismatch.bucket == "helpers:K13" else None
+        return {"helpers:K13": "K13", "helpers:K15": "K15"}.get(
+            mismatch.bucket)
 
 
 class ScopeObject(Stage):
